@@ -509,7 +509,9 @@ impl<'a, T: QueryToRelationTranslator + Copy + Clone> VisitedQueryRelations<'a, 
                         self.translator.try_expr(expr, columns)?,
                     ))
                 }
-                ast::SelectItem::QualifiedWildcard(_, _) => todo!(),
+                ast::SelectItem::QualifiedWildcard(_, _) => {
+                    return Err(Error::other(format!("{select_item} is not supported")))
+                }
                 ast::SelectItem::Wildcard(_) => {
                     // push all names that are present in the from into named_exprs.
                     // for non ambiguous col names preserve the input name
